@@ -1,0 +1,19 @@
+//go:build verif
+
+package verifapi
+
+import (
+	"context"
+
+	"github.com/google/go-containerregistry/pkg/v1/remote"
+
+	"chainguard.dev/apko/internal/cli"
+	"chainguard.dev/apko/pkg/build"
+	"chainguard.dev/apko/pkg/build/types"
+)
+
+// PublishCmdWithTags is cli.PublishCmd with the one publish option the command line always passes (the tags to
+// publish under); cli.PublishOption is a type of an internal package and cannot be named by the harness.
+func PublishCmdWithTags(ctx context.Context, outputRefs string, archs []types.Architecture, ropt []remote.Option, sbomPath string, buildOpts []build.Option, tags []string) error {
+	return cli.PublishCmd(ctx, outputRefs, archs, ropt, sbomPath, buildOpts, []cli.PublishOption{cli.WithTags(tags...)})
+}
